@@ -195,8 +195,9 @@ Print Assumptions C17_formation_model_is_C05.
    enumerations of the sets at sites 1, 2, 3, 4, 6 (build_candidates' existing/extras sets, the singles loop, every
    _ordered(set)) and, on LINEAR records, also at site 5 (the scan of _find_hybrids over `sorted(set, key=core start)`:
    equal core starts may come in any order) and site 8 (never reached) - records without origin-crossing protoclusters,
-   unique ids, no two protoclusters sharing coordinates AND product AND core start/end.  At the two PLAIN location sorts
-   of a set (sites 7, 9: `sorted(set)` without the product pre-sort) the enumerations must be tie neutral; on circular
+   unique ids, no two protoclusters sharing coordinates AND product AND core start/end.  At the PLAIN location sort
+   of a set (site 7: `sorted(set)` without the product pre-sort; site 9 is gone since the repair of C05's finding
+   neighbouring_singles_not_linked) the enumerations must be tie neutral; on circular
    records sites 5 and 8 must follow ascending id: partial *)
 Theorem C17_formation_perm_partial : forall P w en en',
   Forall simple P -> NoDup (map C05.Model.pid P) ->
